@@ -35,7 +35,7 @@ func (c12) Describe() CheckInfo {
 		},
 		RealCode:       []string{"gopatch main()/mainCmd.Run, preview/printComments, patch.Parse/File.Apply, pkg/diff, x/tools/imports, internal/*"},
 		Stubs:          []string{"package os (simulated filesystem, streams, exit)", "path/filepath walk", "io/ioutil"},
-		RequiredProbes: []string{"agree-inplace-vs-print", "agree-diff-applied", "agree-api", "agree-verbose", "agree-refused-file", "description-on-stderr", "multi-file-print", "dry-fault-fired", "dry-kill", "dry-stdout-fail", "noncanonical-matched-file", "large-file"},
+		RequiredProbes: []string{"agree-inplace-vs-print", "agree-diff-applied", "agree-api", "agree-verbose", "agree-refused-file", "description-on-stderr", "multi-file-print", "dry-fault-fired", "dry-kill", "dry-stdout-fail", "noncanonical-matched-file", "large-file", "agree-respelled-duplicate-arg", "agree-api-result-held"},
 	}
 }
 
@@ -132,6 +132,14 @@ func (c12) Gen(env *Env, seed uint64, tier string, i int) *Case {
 		c.Spec.Knobs.StdinChunk = -8
 		c.Spec.Knobs.FileChunk = -128
 	}
+	if sub == "agree" && r.Chance(1, 4) && len(c.Files) > 0 {
+		// the same file (or directory) named again in another spelling: every mode
+		// must still treat each file once
+		f := c.Files[r.Intn(len(c.Files))]
+		rel := strings.TrimPrefix(f.Path, ProjDir+"/")
+		c.Targets = append(c.Targets, r.Pick([]string{f.Path, rel, "./" + rel, ProjDir, ".", ProjDir + "/./" + rel}))
+		c.Extra["respelled_duplicate"] = "1"
+	}
 	c.Extra["rng"] = fmt.Sprint(r.Uint64())
 	c.RebuildArgs()
 	return c
@@ -152,8 +160,10 @@ func withFlags(c *Case, f Flags) world.Spec {
 	return d.Spec
 }
 
-func c12Agree(env *Env, c *Case) []Violation {
-	var vs []Violation
+func c12Agree(env *Env, c *Case) (vs []Violation) {
+	if c.Extra["respelled_duplicate"] == "1" {
+		env.Probe("agree-respelled-duplicate-arg")
+	}
 	add := func(oracle, sig, detail string) {
 		vs = append(vs, Violation{Oracle: oracle, Signature: "C12/" + oracle + "/" + sig, Detail: detail})
 	}
@@ -266,8 +276,27 @@ func c12Agree(env *Env, c *Case) []Violation {
 	if len(c.Patches) == 1 && !c.Flags.SkipImport && !c.Flags.SkipGen && len(failed) == 0 {
 		ap, pres := ParseAPI(env.Prog, "p.patch", c.Patches[0].Data)
 		if ap != nil {
+			type heldRes struct {
+				path      string
+				raw, want []byte
+			}
+			var held []heldRes
+			defer func() {
+				// one parsed patch served all files: what it returned for an earlier
+				// file must still read the same after the later calls
+				for _, h := range held {
+					if !bytes.Equal(h.raw, h.want) {
+						vs = append(vs, Violation{Oracle: "api-vs-inplace", Signature: "C12/api-vs-inplace/result-changed-later", Detail: fmt.Sprintf("the bytes Apply returned for %s equalled the in-place result when returned, but read %q after later Apply calls on the same parsed patch", h.path, clip(string(h.raw), 300))})
+						break
+					}
+				}
+			}()
 			for _, f := range sorted {
 				ares := ApplyAPI(ap, f.Path, orig[f.Path].Data)
+				if ares.Raw != nil {
+					held = append(held, heldRes{f.Path, ares.Raw, ares.Out})
+					env.Probe("agree-api-result-held")
+				}
 				HashBytes([]byte(ares.Key()))
 				if ares.Panic != "" || ares.NoProg {
 					continue
